@@ -161,6 +161,8 @@ func CheckStreams(o *Outcome) []Viol {
 		}
 		return false
 	}
+	expBySlot := map[int][]*evInfo{}
+	callsBySlot := map[int][]*HRec{}
 	for _, st := range streams {
 		if st.watchSeq < 0 {
 			continue
@@ -230,15 +232,19 @@ func CheckStreams(o *Outcome) []Viol {
 				break
 			}
 		}
+		expBySlot[st.slot], callsBySlot[st.slot] = exp, st.calls
 		cursor := 0
 		gotInvalidate := false
 		lostSeen := false
 		closedSeen := false
+		prevHas := false
 		for _, h := range st.calls {
 			if h.Kind == "sclose" {
 				closedSeen = true
 				continue
 			}
+			wasHas := prevHas
+			prevHas = h.Res.Has
 			if h.Res.StreamErr == "lost" {
 				lostSeen = true
 				if !anyTrim {
@@ -251,7 +257,13 @@ func CheckStreams(o *Outcome) []Viol {
 				if h.Kind == "trynext" && h.Res.StreamErr == "" && !closedSeen && !gotInvalidate && !lostSeen && cursor < len(exp) && h.Res.Cls == "ok" && !o.ClosedBy {
 					inf := exp[cursor]
 					if inf.pubIdx <= int(h.Pub0) && (!inf.trimmed || inf.trimAt > int(h.Pub1)) {
-						bad("stream-delivery:missing", "TryNext returned false although the next event was published before the call", fmt.Sprintf("slot %d event %s", st.slot, inf.ev.ID()))
+						if wasHas {
+							// "block for the first event, poll for the rest": the previous poll delivered an
+							// event, the following ones are already committed and need no further wake-up
+							bad("stream-stall:trynext-after-next", "TryNext returned false right after a delivered event although the next event was already published", fmt.Sprintf("slot %d event %s", st.slot, inf.ev.ID()))
+						} else {
+							bad("stream-delivery:missing", "TryNext returned false although the next event was published before the call", fmt.Sprintf("slot %d event %s", st.slot, inf.ev.ID()))
+						}
 					}
 				}
 				continue
@@ -394,6 +406,22 @@ func CheckStreams(o *Outcome) []Viol {
 			if cause != "" && !reported[cause+fmt.Sprint(r.Actor)] {
 				reported[cause+fmt.Sprint(r.Actor)] = true
 				bad("stream-stall:"+cause, "a consumer stays blocked in Next although it must have been woken", fmt.Sprintf("actor %d trace #%d", r.Actor, r.Seq))
+			}
+			// blocked although the next expected event was already in the oplog it read last
+			slot := slotOf(r.Actor, r.Op)
+			delivered := 0
+			for _, h := range callsBySlot[slot] {
+				if h.Res.Has && h.Res.Ev != nil && h.Res.Ev.Op != "invalidate" && h.Ret <= r.Clock {
+					delivered++
+				}
+			}
+			if exp := expBySlot[slot]; delivered < len(exp) && cause == "" {
+				inf := exp[delivered]
+				visible := inf.pubIdx == 0 || (inf.pubIdx < len(snaps) && snaps[inf.pubIdx].seq < lastOplog[r.Actor])
+				if visible && !inf.trimmed && !reported["pending"+fmt.Sprint(r.Actor)] {
+					reported["pending"+fmt.Sprint(r.Actor)] = true
+					bad("stream-stall:event-pending", "a consumer blocks in Next although the next event was in the oplog it has just read", fmt.Sprintf("actor %d trace #%d event %s", r.Actor, r.Seq, inf.ev.ID()))
+				}
 			}
 		}
 	}
